@@ -272,7 +272,7 @@ def judge(seed):
         nodes = [int(x) for x in m.properties["unit_cell_atoms"]]
         fr = c.to_fractional(m.positions)
         sh = fr - F_[nodes]
-        if not np.allclose(sh, np.round(sh), atol=1e-6):
+        if not np.allclose(sh, np.round(sh), rtol=0, atol=1e-6):
             return f"{tag}: an atom of a molecule is not a lattice translate of its unit-cell site", nontrivial
         if [int(z) for z in m.atomic_numbers] != [int(u["element"][n]) for n in nodes]:
             return f"{tag}: molecule elements do not match its unit-cell atoms", nontrivial
@@ -289,7 +289,7 @@ def judge(seed):
             return f"{tag}: a molecule mixes atoms of different asymmetric-unit molecules", nontrivial
         if sorted(asym_idx) != [a for a in range(len(owner)) if owner[a] == own[0]]:
             return f"{tag}: a molecule is not whole (atoms {asym_idx})", nontrivial
-        if not np.allclose(d1, d0, atol=1e-6):
+        if not np.allclose(d1, d0, rtol=0, atol=1e-6):
             return f"{tag}: internal distances differ from the asymmetric-unit parent by {np.abs(d1 - d0).max():.3g}", nontrivial
         cov = np.array([Element[int(z)].cov for z in m.atomic_numbers])
         thr = cov[:, None] + cov[None, :] + 0.4
